@@ -93,7 +93,7 @@ def eventsFor (f : Gen.Func) (v : Verdicts) (o : Out) : List Event :=
       [.dataStarted, match o.handoff with
         | some h => .handoff h.sender h.rcpts
         | none => .dataFailed]
-    else [.other]
+    else [.dataRefused]
   | .starttls => if o.replies = [220] then [.tlsStarted] else [.other]
   | _ => [.other]
 
@@ -124,7 +124,7 @@ def Input.Wf : Input → Prop
   | .readErr _ => True
 
 /-- events that leave the specification state possible as it is -/
-def Neutral (e : Event) : Prop := e = .other ∨ e = .greetFailed ∨ e = .rcptRefused
+def Neutral (e : Event) : Prop := e = .other ∨ e = .greetFailed ∨ e = .rcptRefused ∨ e = .dataRefused
 
 theorem neutral_run (t : Tx) (es : List Event) (h : ∀ e ∈ es, Neutral e) : t ∈ txRun [t] es := by
   suffices ∀ ts : List Tx, t ∈ ts → t ∈ txRun ts es from this [t] (by simp)
@@ -136,11 +136,12 @@ theorem neutral_run (t : Tx) (es : List Event) (h : ∀ e ∈ es, Neutral e) : t
     apply ih (fun e' he' => h e' (List.mem_cons_of_mem _ he'))
     simp only [List.mem_flatMap]
     refine ⟨t, hts, ?_⟩
-    rcases h e List.mem_cons_self with rfl | rfl | rfl
+    rcases h e List.mem_cons_self with rfl | rfl | rfl | rfl
     · simp [txStep]
     · simp [txStep]
     · simp only [txStep]
       split <;> simp
+    · simp [txStep]
 
 end QsmtpModel.Session
 
@@ -901,7 +902,7 @@ theorem bounce_le_one (s : Sess) (hI : Inv s) (hm : s.mailfrom = []) : (okAddrs 
     simp only [List.filter_cons]
     split <;> simp [hfil]
 
-theorem events_data_no354 (v : Verdicts) (o : Out) (h : 354 ∉ o.replies) : eventsFor .data v o = [.other] := by
+theorem events_data_no354 (v : Verdicts) (o : Out) (h : 354 ∉ o.replies) : eventsFor .data v o = [.dataRefused] := by
   simp [eventsFor, h]
 
 theorem err_replies_mem (r : FuncRes) (rowState : Int) (i : Nat) (hrc : r.rc ≠ .ok) (c : Nat) :
@@ -928,7 +929,7 @@ theorem goal_data (env : Env) (v : Verdicts) (s : Sess) (t : Tx) (l : List Byte)
       rw [hmem]
       rcases handleError_spec' .edone s with h | h <;> simp [h, errReply, Ne.symm hc]
     rw [events_data_no354 v _ hno]
-    exact finish_err_goal _ _ _ t t _ (by simp) hI (Or.inr ⟨r1, r2, r3⟩) (other_run t)
+    exact finish_err_goal _ _ _ t t _ (by simp) hI (Or.inr ⟨r1, r2, r3⟩) (neutral_run t _ (by simp [Neutral]))
   simp only [runFunc, smtpData]
   split
   · exact pre 554 (by decide)
@@ -945,7 +946,15 @@ theorem goal_data (env : Env) (v : Verdicts) (s : Sess) (t : Tx) (l : List Byte)
     have hgr : t.greeted = decide ((freedata s).comstate ≠ 1) := by
       rw [r1]; simp [freedata_cs_one s hI]
     split
-    · exact pre 451 (by decide)
+    · -- the queue could not be started: 451 without 354, the transaction is discarded
+      have hmem := (err_replies_mem { replies := [451], rc := .edone, s := freedata s } 16 7 (by simp) 354).1
+      have hno : 354 ∉ (finishStep 16 7 { replies := [451], rc := .edone, s := freedata s }).1.replies := by
+        rw [hmem]
+        rcases handleError_spec' .edone (freedata s) with h | h <;> simp [h, errReply]
+      rw [events_data_no354 v _ hno]
+      apply finish_err_goal _ _ _ t { t with sender := none, rcpts := [] } _ (by simp) hfi
+      · exact Or.inr (rel_idle _ t.greeted hfn rfl hgr)
+      · simp [txRun, txStep]
     · -- accepted
       rw [finish_ok _ _ _ rfl]
       have hah := afterHelo_cases s
